@@ -187,6 +187,9 @@ pub fn invariant(p: &VerifProbe) -> Option<(String, String)> {
 }
 
 struct Mon {
+    /// what the tick about to be made will attempt, if it is an attempt to exceed a cap:
+    /// (description, expected error kind)
+    pending_attempt: Option<(String, &'static str)>,
     shape: u64,
     max_frames: usize,
     max_loops: usize,
@@ -200,7 +203,71 @@ fn after_call(s: &mut Sess, op: &Op, call: &crate::sess::Call, m: &mut Mon, ctx:
         return v("panic", format!("panic@{p}"), format!("{:?} unwound: {p}", op));
     }
     m.calls += 1;
+    // an attempt to exceed a cap must be refused with OUT OF MEMORY
+    if let Some((what, kind)) = m.pending_attempt.take() {
+        if matches!(op, Op::Tick) {
+            let got = call.err().map(|e| e.kind.clone());
+            if got.as_deref() != Some(kind) {
+                return v(
+                    "cap-attempt-not-refused",
+                    format!("{what}: expected {kind}, got {:?}", got),
+                    format!("{what}: the statement should be refused with {kind}, but the call gave {:?} (state {:?})", call.res, call.state),
+                );
+            }
+            ctx.count("reach.cap_attempt_refused_as_expected");
+        }
+    }
     let p = s.probe(false);
+    if call.state == St::Running && p.location.1 < p.line_tokens.len() {
+        let t = &p.line_tokens[p.location.1];
+        if t == "GOSUB" && p.stack.len() == 32 && p.line_tokens.get(p.location.1 + 1).map(|x| x.parse::<f64>().is_ok()).unwrap_or(false) {
+            m.pending_attempt = Some((format!("GOSUB with 32 frames on the stack (line {:?})", p.location.0), "OutOfMemory(StackOverflow)"));
+        } else if t == "DIM" {
+            // DIM name ( n1 , n2 ... ) with plain numerals whose product of (n+1) exceeds 10000, name not yet an array
+            let toks = &p.line_tokens[p.location.1..];
+            if toks.len() >= 5 && toks[2] == "(" && !p.arrays.iter().any(|a| a.name == toks[1]) {
+                let mut k = 3;
+                let mut prod: f64 = 1.0;
+                let mut ok = true;
+                loop {
+                    match toks.get(k).and_then(|x| x.parse::<f64>().ok()) {
+                        Some(n) if n >= 0.0 && n.fract() == 0.0 => prod *= n + 1.0,
+                        _ => {
+                            ok = false;
+                            break;
+                        }
+                    }
+                    match toks.get(k + 1).map(|x| x.as_str()) {
+                        Some(",") => k += 2,
+                        Some(")") => {
+                            ok = matches!(toks.get(k + 2).map(|x| x.as_str()), None | Some(":"));
+                            break;
+                        }
+                        _ => {
+                            ok = false;
+                            break;
+                        }
+                    }
+                }
+                if ok && prod > 10000.0 {
+                    m.pending_attempt = Some((format!("DIM {} with {} cells (line {:?})", toks[1], prod, p.location.0), "OutOfMemory(ArrayTooLarge)"));
+                }
+            }
+        } else if t == "FOR" && p.loops.len() == 32 {
+            // only when the bounds are plain numerals: then nothing can fail before the push is attempted
+            let lit = |k: usize| p.line_tokens.get(p.location.1 + k).map(|x| x.parse::<f64>().is_ok()).unwrap_or(false);
+            let plain = p.line_tokens.get(p.location.1 + 2).map(|x| x == "=").unwrap_or(false)
+                && lit(3)
+                && p.line_tokens.get(p.location.1 + 4).map(|x| x == "TO").unwrap_or(false)
+                && lit(5)
+                && matches!(p.line_tokens.get(p.location.1 + 6).map(|x| x.as_str()), None | Some(":"));
+            if let (true, Some(var)) = (plain, p.line_tokens.get(p.location.1 + 1)) {
+                if !p.loops.iter().any(|l| &l.symbol == var) {
+                    m.pending_attempt = Some((format!("FOR {var} with 32 open loops (line {:?})", p.location.0), "OutOfMemory(StackOverflow)"));
+                }
+            }
+        }
+    }
     m.max_frames = m.max_frames.max(p.stack.len());
     m.max_loops = m.max_loops.max(p.loops.len());
     fnv_add(&mut m.shape, &[p.stack.len() as u8, p.loops.len() as u8, p.arrays.len() as u8, call.state as u8]);
@@ -263,6 +330,7 @@ impl Prop for C16 {
         let mut s = Sess::new();
         let mut ops = vec![];
         let mut m = Mon {
+            pending_attempt: None,
             shape: 0xcbf29ce484222325,
             max_frames: 0,
             max_loops: 0,
@@ -363,6 +431,7 @@ impl Prop for C16 {
     fn execute(c: &Case, ctx: &mut Ctx) -> Option<Violation> {
         let mut s = Sess::new();
         let mut m = Mon {
+            pending_attempt: None,
             shape: 0,
             max_frames: 0,
             max_loops: 0,
